@@ -64,9 +64,13 @@ class XRayTransform2D(LinearOperator):
                 corresponds to summing columns, and an angle of pi/4
                 corresponds to summing along antidiagonals.
             x0: (x, y) position of the corner of the pixel `im[0,0]`. By
-                default, `(-input_shape / 2, -input_shape / 2)`.
+                default, `-input_shape * dx / 2`, which centers the image
+                on the origin.
             dx: Image pixel side length in x- and y-direction. Should be
-                <= 1.0 in each dimension. By default, [1.0, 1.0].
+                small enough that the width of a projected pixel is never
+                larger than 1.0 (a warning is issued otherwise). By
+                default, [:math:`\sqrt{2}/2`, :math:`\sqrt{2}/2`], for
+                which this holds at every angle.
             y0: Location of the edge of the first detector bin. By
                 default, `-det_count / 2`
             det_count: Number of elements in detector. If ``None``,
